@@ -38,7 +38,7 @@ pub enum LEv {
     New { layer: u8, serial: u64, id: u64, parent: Option<u64>, cur: Option<u64>, scope: Vec<u64>, scope_root: Vec<u64> },
     Enter { layer: u8, serial: u64, cur: Option<u64> },
     Exit { layer: u8, serial: u64 },
-    Close { layer: u8, serial: u64 },
+    Close { layer: u8, serial: u64, cur: Option<u64> },
     Event { layer: u8, opid: u64, parent: Option<u64>, cur: Option<u64>, scope: Vec<u64>, scope_root: Vec<u64> },
 }
 
@@ -187,7 +187,14 @@ where
                     }
                 }
             }
-            self.log.entries.lock().unwrap().push(LEv::Close { layer: self.layer, serial });
+            // what a layer may well do while handling a close: ask for the thread's current span
+            // (both ways); the closing span itself is entered nowhere
+            let cur = ctx.lookup_current().and_then(|s| canary_of(&s, self.layer).map(|c| c.serial));
+            let cur_id = ctx.current_span().id().cloned();
+            if cur_id != ctx.lookup_current().map(|s| s.id()) {
+                self.log.err(Tag::C06, format!("layer {}: on_close of serial {serial}: current_span() names {cur_id:?}, lookup_current() another span", self.layer));
+            }
+            self.log.entries.lock().unwrap().push(LEv::Close { layer: self.layer, serial, cur });
         }
     }
     fn on_event(&self, event: &Event<'_>, ctx: Context<'_, C>) {
@@ -431,7 +438,7 @@ impl World {
                 .collect();
             let got: Vec<(u8, u64)> = entries
                 .iter()
-                .filter_map(|e| if let LEv::Close { layer, serial } = e { Some((*layer, *serial)) } else { None })
+                .filter_map(|e| if let LEv::Close { layer, serial, .. } = e { Some((*layer, *serial)) } else { None })
                 .collect();
             if got != want {
                 let describe = |v: &[(u8, u64)]| v.iter().map(|(l, s)| format!("L{l}:s{s}")).collect::<Vec<_>>().join(" ");
@@ -443,6 +450,14 @@ impl World {
             // --- C06 clauses on New / Event entries
             for e in &entries {
                 match e {
+                    LEv::Close { layer, serial, cur } => {
+                        if !self.model.has_dup(st, t) {
+                            let mc = self.model.current(st, t);
+                            if *cur != mc {
+                                self.err(Tag::C06, format!("layer {layer}: lookup_current() inside on_close of serial {serial} is {cur:?}, the thread's most recently entered unexited span is {mc:?}"));
+                            }
+                        }
+                    }
                     LEv::New { layer, serial, id, parent, cur, scope, scope_root } => {
                         if let Some((ns, nst)) = new_serial {
                             if ns == *serial && nst == st {
